@@ -90,7 +90,8 @@ class StereoCondensedReactionGraph(StereoMolGraph, CondensedReactionGraph):
         o_colors = {a: int(c) for a,c in zip(other.atoms, o_color_array)}
         s_colors = {a: int(c) for a,c in zip(self.atoms, s_color_array)}
 
-        return any(
+        # an empty mapping (two empty graphs) is a valid isomorphism
+        return next(
                 vf2pp_all_isomorphisms(
                     self,
                     other,
@@ -98,8 +99,9 @@ class StereoCondensedReactionGraph(StereoMolGraph, CondensedReactionGraph):
                     stereo=True,
                     stereo_change=True,
                     subgraph=False,
-                )
-            )
+                ),
+                None,
+            ) is not None
 
     @property
     def atom_stereo_changes(self) -> Mapping[AtomId, ChangeDict[AtomStereo]]:
